@@ -10,6 +10,9 @@ CONSTANTS
   EqualNames = FALSE
   SanitiseDots = FALSE
   Reserve = FALSE
+  AllowAbort = FALSE
+  ForeignRelease = FALSE
+  OrderedArrival = FALSE
 INVARIANT TypeOK
 INVARIANT Inside
 INVARIANT RegularName
